@@ -92,16 +92,14 @@ func princString(p interface{}) string {
 	return fmt.Sprintf("%#v", p)
 }
 
-// sameResult: the authenticator must hand back the callback's own error and never a principal other than the
-// callback's. Tolerance: when the callback returns a principal together with an error, withholding the principal
-// (nil) is accepted as well - "no principal" is not "another principal", and the statement does not oblige an
-// authenticator to pass a principal along with a rejection.
+// sameResult: the authenticator hands back exactly what the callback returned - its error and its principal, also when
+// the callback returns both (an account that is known and suspended, say). Up to round 5 a withheld principal (nil)
+// was accepted next to an error; the tolerance was withdrawn in round 6 (DESIGN.md section 6): "never a principal
+// other than the callback's" leaves no room for one the authenticator chose itself, nil included, and every
+// authenticator of the unchanged tree passes the callback's pair through.
 func sameResult(gotP interface{}, gotE error, kind string) bool {
 	wantP, wantE := cbResult(kind)
-	if gotE != wantE {
-		return false
-	}
-	return gotP == wantP || wantE != nil && gotP == nil
+	return gotE == wantE && gotP == wantP
 }
 
 // Transport --------------------------------------------------------------------------------------------
@@ -176,11 +174,18 @@ func exchangeAfterBase(base string, earlier runtime.ClientAuthInfoWriter, op *ru
 		rt.SetLogger(silentLogger{})
 		rt.SetDebug(true)
 	}
+	if op.Params == nil {
+		op.Params = runtime.ClientRequestWriterFunc(func(runtime.ClientRequest, strfmt.Registry) error { return nil })
+	}
+	op.Reader = runtime.ClientResponseReaderFunc(func(runtime.ClientResponse, runtime.Consumer) (interface{}, error) { return nil, nil })
 	if earlier != nil {
 		rt.DefaultAuthentication = earlier
 		warm := &runtime.ClientOperation{ID: "earlier", Method: "GET", PathPattern: "/earlier",
 			Params: runtime.ClientRequestWriterFunc(func(runtime.ClientRequest, strfmt.Registry) error { return nil }),
 			Reader: runtime.ClientResponseReaderFunc(func(runtime.ClientResponse, runtime.Consumer) (interface{}, error) { return nil, nil })}
+		if earlierWithSameOp {
+			warm = op // the caller keeps its operation value and submits it again
+		}
 		var werr error
 		if v := kit.Guard("Runtime.Submit (earlier request)", func() { _, werr = rt.Submit(warm) }); v != nil {
 			return v
@@ -192,10 +197,6 @@ func exchangeAfterBase(base string, earlier runtime.ClientAuthInfoWriter, op *ru
 		w.served = 0
 	}
 	rt.DefaultAuthentication = def
-	if op.Params == nil {
-		op.Params = runtime.ClientRequestWriterFunc(func(runtime.ClientRequest, strfmt.Registry) error { return nil })
-	}
-	op.Reader = runtime.ClientResponseReaderFunc(func(runtime.ClientResponse, runtime.Consumer) (interface{}, error) { return nil, nil })
 	var err error
 	if v := kit.Guard("Runtime.Submit -> authenticator", func() { _, err = rt.Submit(op) }); v != nil {
 		return v
@@ -474,6 +475,22 @@ type BearerCase struct {
 	BodyTok  kit.BStr `json:"body_tok,omitempty"`
 	Method   string   `json:"method"`
 	Callback string   `json:"callback"`
+	// UpperCT: the media type of the form body's Content-Type reaches the server spelled with capitals
+	// ("Application/X-WWW-Form-Urlencoded", "Multipart/Form-Data; boundary=..."): media types are case-insensitive. (r6)
+	UpperCT bool `json:"upper_ct,omitempty"`
+}
+
+// capitalised spells the media type of a Content-Type value with capitals and leaves its parameters alone.
+func capitalised(ct string) string {
+	mt, rest := ct, ""
+	if i := strings.IndexByte(ct, ';'); i >= 0 {
+		mt, rest = ct[:i], ct[i:]
+	}
+	parts := strings.SplitN(mt, "/", 2)
+	if len(parts) != 2 || parts[0] == "" {
+		return ct
+	}
+	return strings.ToUpper(parts[0][:1]) + parts[0][1:] + "/" + strings.ToUpper(parts[1]) + rest
 }
 
 // want is the token the statement's precedence selects: Authorization header, else access_token query
@@ -562,6 +579,9 @@ func runBearer(c BearerCase, ctxVariant bool) (*seen, *kit.Violation) {
 	}
 	v := exchange(op, nil, func(r *http.Request) {
 		s.runs++
+		if c.UpperCT && r.Header.Get("Content-Type") != "" {
+			r.Header.Set("Content-Type", capitalised(r.Header.Get("Content-Type")))
+		}
 		s.applies, s.princ, s.err = auth.Authenticate(authParam(r, true, c.Scopes))
 		s.failed = security.FailedBasicAuth(r)
 		s.oauth = security.OAuth2SchemeName(r)
@@ -579,7 +599,7 @@ func CheckBearer(c BearerCase) *kit.Violation {
 		if v != nil {
 			return v
 		}
-		what := fmt.Sprintf("BEARER ctx-variant=%v %s header=%s/%q query=%v/%q body=%s/%q decoy=%v scheme=%q scopes=%q callback=%s", ctxVariant, c.Method, c.Header, c.HdrTok, c.Query, c.QueryTok, c.Body, c.BodyTok, c.Decoy, c.Scheme, c.Scopes, c.Callback)
+		what := fmt.Sprintf("BEARER ctx-variant=%v %s header=%s/%q query=%v/%q body=%s/%q(content type in capitals=%v) decoy=%v scheme=%q scopes=%q callback=%s", ctxVariant, c.Method, c.Header, c.HdrTok, c.Query, c.QueryTok, c.Body, c.BodyTok, c.UpperCT, c.Decoy, c.Scheme, c.Scopes, c.Callback)
 		if s.nilCtx {
 			return kit.Failf("%s: the context-aware callback was handed a nil context", what)
 		}
@@ -686,17 +706,23 @@ type DefaultCase struct {
 	// PresetName is the spelling of the header name the parameter writer uses ("" = "Authorization"): header names are
 	// case-insensitive, "authorization" pre-sets the same header
 	PresetName string `json:"preset_name,omitempty"`
-	Method  string   `json:"method"`
+	Method     string `json:"method"`
 	// Rotated: the same transport has already sent a request under another default credential (a token that has
 	// been rotated since): the default that counts is the one configured when the request is made.
 	Rotated *Cred `json:"rotated,omitempty"`
+	// SameOp: that earlier request was made with the very *ClientOperation value of this one (a caller that builds
+	// its operation once and submits it again). (r6)
+	SameOp bool `json:"same_op,omitempty"`
 }
+
+// earlierWithSameOp: see DefaultCase.SameOp (set for the duration of one case, like debugTransport).
+var earlierWithSameOp bool
 
 // CheckDefault: the default credential is applied iff the operation has no writer of its own and no
 // Authorization header is already set; what the server authenticators recover is exactly the effective credential.
 func CheckDefault(c DefaultCase) *kit.Violation {
-	debugTransport = c.Debug
-	defer func() { debugTransport = false }()
+	debugTransport, earlierWithSameOp = c.Debug, c.SameOp
+	defer func() { debugTransport, earlierWithSameOp = false, false }()
 	var got recovered
 	var authz []string
 	calls := 0
@@ -740,7 +766,7 @@ func CheckDefault(c DefaultCase) *kit.Violation {
 		return v
 	}
 
-	what := fmt.Sprintf("DEFAULT default=%+v op=%s preset=%q", c.Default, credString(c.Op), c.Preset)
+	what := fmt.Sprintf("DEFAULT default=%+v op=%s preset=%q earlier-default=%s (same operation value submitted before: %v)", c.Default, credString(c.Op), c.Preset, credString(c.Rotated), c.SameOp)
 	var want recovered
 	wantAuthz := "" // "" = not judged
 	switch {
